@@ -38,6 +38,7 @@ def spec_evaluator(world, label):
     fv.handlers = []
     fv._nonneg, fv._nonneg_keep = set(), []
     fv._fresh_ids, fv._entry_ids, fv._id_keep = set(), set(), []
+    fv._owner_tag, fv._entry_term_cache, fv._binder_cache, fv._lkind_tag = {}, {}, {}, {}
     fv.where = lambda node: ""
     return fv
 
@@ -101,6 +102,11 @@ def prove_lemmas(world, pid, timeout_ms):
                 fv.oblige(fv.eval_spec_bool(e, ctx), "lemma-step", f"{i}", lm.path)
             obs.extend(fv.obligations)
     res = solve.discharge(obs, timeout_ms=timeout_ms)
+    # vacuity guard: the hypotheses of a lemma must be satisfiable
+    vac = solve.check_covers([(o.name + "#cover", o.pc) for o in obs if not o.trivial])
     for o in obs:
-        out.append((o.name, o.where, res[o.name]))
+        r = res[o.name]
+        if o.name + "#cover" in vac:
+            r = ("unknown", r[1], r[2], None, "VACUOUS: hypotheses are contradictory")
+        out.append((o.name, o.where, r))
     return out
